@@ -43,6 +43,21 @@ pub fn one_scenario(rep: &Report, idx: usize, sc: &Scenario, keep: bool) -> Opti
             rep.count("cli.range_logs_judged", 1);
             rep.count("cli.requests_observed", o.requests.len() as u64);
             rep.count(&format!("cli.clones.{}", sc.out_kind.name()), 1);
+            // The same clone with one chunk-data response cut in mid-body and retries on:
+            // the resumed transfer may ask again for what is missing, never for anything else.
+            if let Some(victim) = o.requests.iter().find(|r| r.req.n >= 2 && r.body_sent >= 2) {
+                let k = 1 + (idx * 7919) % (victim.body_sent - 1);
+                cc::prepare_output(&b, sc);
+                let oc = cc::run_clone(&dir, &b, sc, "cut", &Faults { pacing: (idx % 4) as u8, cut: Some((victim.req.n, k)), ..Default::default() });
+                rep.eval();
+                if oc.exit != Exit::Timeout {
+                    cc::judge_requests_subset(&b, &oc).map_err(|e| format!("cli-http, response #{} cut after {} bytes, retries on: {}", victim.req.n, k, e))?;
+                    rep.count("cli.cut_and_resumed_runs_judged", 1);
+                    if oc.requests.len() > o.requests.len() {
+                        rep.count("cli.cut_runs_with_a_resumed_request", 1);
+                    }
+                }
+            }
         } else {
             // Information: bytes read from the local archive file at syscall level.
             let read: u64 = o
